@@ -388,6 +388,7 @@ func z3Scenarios(thorough bool) []z3Scenario {
 	l := []z3Scenario{
 		{Name: "one-part", Layers: []int{3}, Config: 2, Faults: netf, Faulty: 1},
 		{Name: "three-parts", Layers: []int{10}, Faults: netf, Faulty: 1, Cap: 1},
+		{Name: "twelve-parts", Layers: []int{46}, Faults: []string{"500", "truncate"}, CancelLate: true, Faulty: 1, Cap: 1},
 		{Name: "three-parts-pairs", Layers: []int{10}, Faults: []string{"500", "truncate"}, Faulty: 1},
 		{Name: "three-parts-cancel", Layers: []int{10}, Cancel: true, Faulty: 1},
 		{Name: "challenges", Layers: []int{3}, Challenge: adversarial, Faulty: 1},
